@@ -202,7 +202,7 @@ def main_nodds(payload):
                 mod = importlib.import_module(payload["pkg"] + "." + act["mod"])
                 setattr(mod, act["name"], build(act["value"]))
                 res["out"] = "ok:N"
-            elif act["a"] == "load":
+            elif act["a"] in ("load", "rawfile"):
                 res["out"] = "ok:" + canon(fake.load(act["path"]))
         except BaseException as e:  # noqa
             if type(e).__name__ == "DDSException":
@@ -231,6 +231,8 @@ def main():
     if payload.get("accept", True):
         for a in payload.get("accept_modules", [payload["pkg"]]):
             dds.accept_module(a)
+    for k, v in payload.get("options", {}).items():
+        dds.set_option(k, v)
     rec = []
     store = make_store(payload["store"], rec)
     dds.set_store(store)
@@ -267,6 +269,12 @@ def main():
                 res["out"] = "ok:N"
             elif a == "load":
                 res["out"] = "ok:" + canon(dds.load(act["path"]))
+            elif a == "rawfile":
+                # the file found under the data directory of the local store, read without dds
+                import pickle
+                fp = os.path.join(payload["store"]["data_dir"], act["path"].lstrip("/"))
+                with open(fp, "rb") as fh:
+                    res["out"] = "ok:" + canon(pickle.load(fh))
             else:
                 raise ValueError(a)
         except BaseException as e:  # noqa
